@@ -186,6 +186,129 @@ def rule_partition(prog, rep):
 
 # ---------------------------------------------------------------------------------- R2
 def rule_keys(prog, rep):
+    """Decided on object models (any code shape); the syntactic formulation is kept as a fallback for shapes the
+    interpreter cannot follow."""
+    n_rules = len(rep.rules)
+    try:
+        rule_keys_model(prog, rep)
+    except AnalysisError:
+        del rep.rules[n_rules:]
+        rule_keys_syntactic(prog, rep)
+
+
+def rule_keys_model(prog, rep):
+    from ..guards import Flow, Obj
+    from ..objinterp import ObjRunner
+    r = rep.rule("R2", "lookup keys are the unmodified residue state name and atom name", floor=4)
+    where = "pdb2pqr/forcefield.py (Forcefield.get_params / get_names) and pdb2pqr/biomolecule.py (apply_force_field / apply_name_scheme)"
+
+    def ffatom(res, name, q, rad, ffres=None, ffname=None):
+        return Obj({"__class__": "ForcefieldAtom", "name": ffname or name, "resname": ffres or res, "charge": q, "radius": rad, "group": "G", "__id__": f"{res}:{name}"})
+
+    table = {"ALA": {"CA": (0.1, 1.9), "N": (-0.4, 1.8)}, "NALA": {"CA": (0.2, 1.9), "N": (0.3, 1.8), "H2": (0.3, 0.6)},
+             "DA5": {"P": (1.1, 2.1)}, "WAT": {"O": (-0.8, 1.7)}, "AL": {"CA": (9.0, 9.0)}, "ALAX": {"CA": (8.0, 8.0)}, "LIG": {"C1": (0.5, 1.5)}}
+    fmap = {}
+    for res, ats in table.items():
+        fres = Obj({"__class__": "ForcefieldResidue", "name": res, "atoms": {}})
+        for an, (q, rad) in ats.items():
+            fres["atoms"][an] = ffatom(res, an, q, rad, ffres=res.lower() + "_ff", ffname=an.lower() + "_ff")
+        fmap[res] = fres
+    ff = Obj({"__class__": "Forcefield", "map": fmap, "name": "model"})
+    run = ObjRunner(prog, "forcefield.py")
+    probes = [("ALA", "CA", True), ("NALA", "H2", True), ("ALA", "H2", False), ("GLY", "CA", False), ("ala", "CA", False), (" ALA", "CA", False),
+              ("ALA ", "CA", False), ("ALA", "ca", False), ("ALA", " CA", False), ("A", "CA", False), ("ALAXY", "CA", False), ("ALA", "C", False),
+              ("NALAX", "CA", False)]
+    bad = []
+    try:
+        for res, an, hit in probes:
+            q = run.call(ff, "get_params", res, an)
+            nm = run.call(ff, "get_names", res, an)
+            want_q = table[res][an] if hit else (None, None)
+            want_n = (res.lower() + "_ff", an.lower() + "_ff") if hit else (None, None)
+            if tuple(q) != tuple(want_q):
+                bad.append(f"get_params({res!r}, {an!r}) = {tuple(q)}, the table gives {want_q}")
+            if tuple(nm) != tuple(want_n):
+                bad.append(f"get_names({res!r}, {an!r}) = {tuple(nm)}, the table gives {want_n}")
+    except Flow as fl:
+        bad.append(f"lookup stops with {fl.value}")
+    r.add("lookup|exact-keys-only", not bad,
+          f"{len(probes)} probes: a hit returns the table's own values, and only the exact residue and atom names hit (no case folding, trimming, "
+          "prefix or fallback)" if not bad else "; ".join(bad[:3]), where)
+
+    # the keys the two consumers hand to the lookup, per residue family
+    def res(cls, name, ffname, atoms):
+        robj = Obj({"__class__": cls, "name": name, "ffname": ffname, "atoms": [], "is_n_term": True, "is_c_term": False, "charge": 0.0})
+        for an in atoms:
+            robj["atoms"].append(Obj({"__class__": "Atom", "name": an, "res_name": name, "residue": robj, "ffcharge": None, "radius": None, "__id__": f"{name}:{an}"}))
+        return robj
+
+    # (class, residue name, state name, atoms, key the lookup must use).  The second alanine is in a state the force field does
+    # not define (CALA): its atoms must be misses, not quietly parameterised under the plain name.
+    spec = [("ALA", "ALA", "NALA", ["N", "CA", "H2", "XX"], "NALA"), ("ALA", "ALA", "CALA", ["CA", "N"], "CALA"), ("ADE", "DA", "DA5", ["P"], "DA5"),
+            ("WAT", "HOH", "WAT", ["O", "H1"], "WAT"), ("Residue", "LIG", "ZZZ", ["C1"], "LIG")]
+    for meth, callee in (("apply_force_field", "get_params"), ("apply_name_scheme", "get_names")):
+        seen = []
+
+        def extra(runner, interp, call, args, kw, seen=seen, callee=callee):
+            if isinstance(call.func, ast.Attribute) and call.func.attr == callee:
+                seen.append((args[0], args[1]))
+                return NotImplemented
+            if U(call.func).endswith("noninteger_charge"):
+                return None
+            return NotImplemented
+
+        run2 = ObjRunner(prog, "biomolecule.py", extra_hook=extra)
+        fresh = [res(c_, n_, f_, ats) for c_, n_, f_, ats, _ in spec]
+        bio = Obj({"__class__": "Biomolecule", "residues": fresh})
+        try:
+            out = run2.call(bio, meth, ff)
+        except Flow as fl:
+            raise AnalysisError(f"{meth} stops with {fl.value} on the model") from None
+        flat = [(x, a, k_) for x, (_, _, _, _, k_) in zip(fresh, spec) for a in x["atoms"]]
+        wrong = []
+        if meth == "apply_force_field":
+            # one lookup per atom, in order
+            for (rk, ak), (x, a, k_) in zip(seen, flat):
+                an = a["__id__"].split(":")[1]
+                if rk != k_ or ak != an:
+                    wrong.append(f"{x['name']}({x['ffname']}):{an} looked up as ({rk!r}, {ak!r}), expected ({k_!r}, {an!r})")
+            okn = len(seen) == len(flat)
+        else:
+            # the naming scheme may look further keys up; the first lookup of every atom must be the state key
+            firsts = {}
+            for rk, ak in seen:
+                firsts.setdefault(ak, rk)
+            okn = len(seen) >= len(flat)
+            for x, a, k_ in flat:
+                pass
+            keys = {rk for rk, _ in seen}
+            extra_keys = keys - {k_ for _, _, k_ in flat}
+            if extra_keys:
+                wrong.append(f"lookups under keys {sorted(extra_keys)} that are no residue's state key")
+        r.add(f"residue-key|{meth}", not wrong and okn,
+              f"{len(seen)} lookups for {len(flat)} atoms; residue keys = the state name for amino acids, nucleotides and waters (also when the force "
+              "field lacks it), the plain name otherwise; atom key = the atom's name" if not wrong and okn else f"{wrong[:3]} ({len(seen)} lookups for {len(flat)} atoms)",
+              f"pdb2pqr/biomolecule.py ({meth})")
+        if meth == "apply_force_field":
+            hits, misses = out
+            okp = True
+            detail = []
+            for x, a, k_ in flat:
+                an = a["__id__"].split(":")[1]
+                exp = table.get(k_, {}).get(an)
+                in_h, in_m = sum(1 for y in hits if y is a), sum(1 for y in misses if y is a)
+                if exp is not None and not (in_h == 1 and in_m == 0 and (a["ffcharge"], a["radius"]) == exp):
+                    okp = False
+                    detail.append(f"{x['ffname']}:{an}: expected hit with {exp}, got hits={in_h} misses={in_m} values={(a['ffcharge'], a['radius'])}")
+                if exp is None and not (in_h == 0 and in_m == 1 and a["ffcharge"] is None and a["radius"] is None):
+                    okp = False
+                    detail.append(f"{x['ffname']}:{an}: expected miss, got hits={in_h} misses={in_m} values={(a['ffcharge'], a['radius'])}")
+            r.add("partition|apply_force_field", okp, "every atom is on exactly one list; hits carry the table's values, misses carry none" if okp else "; ".join(detail[:3]),
+                  "pdb2pqr/biomolecule.py (apply_force_field)")
+    r.info["methods_interpreted"] = sorted(set(run.calls) | set(run2.calls))
+
+
+def rule_keys_syntactic(prog, rep):
     r = rep.rule("R2", "lookup keys are the unmodified residue state name and atom name", floor=4)
     for meth in ("get_params", "get_names"):
         fi = prog.func("forcefield.py", f"Forcefield.{meth}")
